@@ -110,10 +110,8 @@ let run (c : cfg) (t : string list) : string =
       let f1, f0 = nt_fibonacci2 n in
       let l = nt_lucas n in
       let s = String.concat " " (List.map sz [ f; f1; f0; l ]) in
-      if is_zero n then s
-      else
-        let l1, l0 = get (nt_lucas2 n) in
-        s ^ " " ^ sz l1 ^ " " ^ sz l0
+      let l1, l0 = get (nt_lucas2 n) in
+      s ^ " " ^ sz l1 ^ " " ^ sz l0
   | [ "pf"; n ] ->
       let n = z n in
       let l = get (nt_prime_factors n) in
